@@ -5,7 +5,7 @@ cd "$(dirname "$0")"
 export GOFLAGS=-mod=mod GOPROXY=off
 unset GOSUMDB GOTOOLCHAIN
 mkdir -p build evidence
-( cd coq && coq_makefile -f _CoqProject -o Makefile >/dev/null 2>&1 && timeout 3000 make -j16 2>&1 | grep -v '^Closed under' | tail -5 )
+python3 -c "import sys; sys.path.insert(0,'lib'); import vcheck; rc,out=vcheck.coq_make(); print(out[-3000:]) if rc else print('coq make ok'); sys.exit(rc)"
 # warm the Go build cache for the repository with and without the hook tag
 ( cd /repo && go build ./... && go build -tags verif ./... ) 2>&1 | tail -5
 # prebuild every harness binary (each check rebuilds incrementally anyway)
